@@ -1,0 +1,12 @@
+//go:build !verif
+
+package genetics
+
+// Verification hooks are compiled out unless the `verif` build tag is set: every hook site is
+// `if verifOn { ... }` with verifOn a false constant.
+
+const verifOn = false
+
+func verifEmit(string, ...interface{}) {}
+
+func verifOp(string, ...interface{}) func() { return nil }
